@@ -844,6 +844,12 @@ func replay(path string) int {
 		ck.runtimeEvidence()
 	} else if strings.HasPrefix(doc.Failure.Class, "expiring/") {
 		ck.expiringOracle()
+	} else if strings.HasPrefix(doc.Failure.Class, "child") {
+		cl := doc.Failure.Class
+		if strings.HasPrefix(cl, "child/") { // transparency classes carry the mode as their last component
+			cl = strings.TrimSuffix(cl, "/"+mode)
+		}
+		ck.childOracle(cl)
 	} else if _, ok := d["records_consumed_after_cancellation"]; ok {
 		ck.recordsOracle(doc.Failure.Class, src, num("lines"))
 	} else {
@@ -889,6 +895,11 @@ func main() {
 	}
 	ck := &checker{rep: rep}
 	tStart := time.Now()
+	if os.Getenv("C15_CHILD_ONLY") != "" { // development: the child-process family alone (repeated runs under load)
+		ck.childOracle("")
+		rep.Write(o.Out)
+		return
+	}
 	hang = func(src, mode string, lines int) {
 		rep.SearchEvals++
 		rep.Fail(hx.Failure{Class: "does-not-return/" + mode, Oracle: "the call returns (within 20 s of wall time)",
@@ -1086,6 +1097,7 @@ func main() {
 	}
 
 	ck.expiringOracle()
+	ck.childOracle("")
 	if o.Tier == "thorough" {
 		ck.runtimeEvidence()
 	}
